@@ -27,6 +27,11 @@ pub(crate) struct Batch {
 	// the pipeline overwrites it before the batch is written to WAL.
 	pub(crate) starting_seq_num: u64,
 	pub(crate) size: u64, // Total size of all records (not serialized)
+	// The WAL segment this batch was appended to (not serialized). Set by the
+	// commit path; the memtable the batch is applied to may have been created
+	// for a later segment, and that segment must then be kept until the
+	// memtable is flushed.
+	pub(crate) wal_number: Option<u64>,
 }
 
 impl Default for Batch {
@@ -43,6 +48,7 @@ impl Batch {
 			version: BATCH_VERSION,
 			starting_seq_num,
 			size: 0,
+			wal_number: None,
 		}
 	}
 
@@ -287,6 +293,7 @@ impl Batch {
 			valueptrs,
 			starting_seq_num: seq_num,
 			size: 0, // Decoded batches don't track size
+			wal_number: None,
 		})
 	}
 }
